@@ -78,6 +78,13 @@ func stripAssert(v ssa.Value) ssa.Value {
 		switch x := v.(type) {
 		case *ssa.TypeAssert:
 			v = x.X
+		case *ssa.Extract:
+			// the value half of a comma-ok assertion
+			if ta, ok := x.Tuple.(*ssa.TypeAssert); ok && ta.CommaOk && x.Index == 0 {
+				v = ta.X
+				continue
+			}
+			return v
 		case *ssa.ChangeInterface:
 			v = x.X
 		case *ssa.MakeInterface:
